@@ -2029,6 +2029,8 @@ def crosscheck(seed, n=240, workers=16):
                         spec["written"]["off"] is None
                         and not spec.get("utc"))):
                 continue
+            if spec["kind"] == "diff" and spec.get("via_now") is not None:
+                continue        # clock-dependent
             if spec["kind"] == "diff" and any(
                     p["written"]["off"] is None for p in spec["points"]) and (
                     not spec.get("utc")):
@@ -2048,7 +2050,8 @@ def crosscheck(seed, n=240, workers=16):
             world.set_env(world.ENV_CAL, step["env"].get("cal"))
             world.set_env(world.ENV_REF, step["env"].get("ref"))
             with kernel.guarded():
-                return world.run_cli(step["argv"], step.get("stdin") or "")
+                return world.run_cli(step["argv"], step.get("stdin") or "",
+                                     "sys.argv")
         status, out, err = kernel.in_fresh_fork(in_process)
         env = dict(os.environ, PYTHONPATH=kernel.REPO, TZ="UTC",
                    PYTHONDONTWRITEBYTECODE="1")
@@ -2057,7 +2060,9 @@ def crosscheck(seed, n=240, workers=16):
             if step["env"].get(key) is not None:
                 env[name] = step["env"][key]
         proc = subprocess.run(
-            [sys.executable, "-m", "metomi.isodatetime.main"] + step["argv"],
+            # the text of the generated console script
+            [sys.executable, "-c", "import sys; from metomi.isodatetime.main "
+             "import main; sys.exit(main())"] + step["argv"],
             input=step.get("stdin") or "", capture_output=True, text=True,
             timeout=120, env=env, cwd="/")
         if status == "ok" and out.startswith("2000-01-01T00:00:0") and (
